@@ -88,6 +88,50 @@ CHECKS = [
              'differences), vf/refop.py, scipy.constants. The 100*tol '
              'agreement bound for fields/data/gradients is calibrated; '
              'automatic gridding and extract_1d are not exercised here.'},
+    {'id': 'C06', 'ref': 'DESIGN.md section 3 C06',
+     'technique': 'runtime monitoring of info[error_at_cycle]/it_mg/exit of '
+                  'deterministic stand-alone multigrid solves; calibrated '
+                  'regression oracle (calib/c06.json measured on the pinned '
+                  'tree): per-cycle reduction factor vs cap and vs the 16^3 '
+                  'member of each family',
+     'text': 'All 36 (cycle, nu, medium, domain) families are solved on '
+             '8..32 (64) cells (thorough to 128 and non-cubic shapes) and the '
+             'observed per-cycle reduction factor must stay below 1.5 x the '
+             'largest factor measured on the pinned tree and within max(1.30, '
+             '1.25 x measured ratio) of the 16^3 factor; cycle counts within '
+             '+3. A calibrated regression monitor of a documented '
+             'performance claim, not a bound from theory.',
+     'note': 'Thresholds and margins are measured (calib/c06.json), not '
+             'derived; inputs deterministic; no wall-clock.'},
+    {'id': 'C07', 'ref': 'DESIGN.md section 3 C07',
+     'technique': 'client-boundary monitor on Simulation.misfit/gradient; '
+                  'oracle = central differences of the misfit of fresh '
+                  'simulations at h, h/2, h/4 with second-order convergence '
+                  'test and (double) Richardson extrapolation; '
+                  'NUMBA_BOUNDSCHECK build (thorough)',
+     'text': 'For random small survey problems over all mappings, anisotropy '
+             'cases, source and receiver kinds, noise forms and NaN gaps the '
+             'inner product <gradient, v> matched the extrapolated finite-'
+             'difference directional derivative to 1e-5 (2e-6 double '
+             'Richardson) with error ratios of 4 per halving; shape and '
+             'finiteness per case.',
+     'note': 'Finite differences of fresh simulations define the derivative; '
+             'solver tol 1e-11; magnetic receivers two cells inside; cases '
+             'with a non-converged solve are skipped and counted.'},
+    {'id': 'C08', 'ref': 'DESIGN.md section 3 C08',
+     'technique': 'client-boundary monitor on Simulation.jvec/jtvec/gradient: '
+                  'adjoint (dot-product) identity with random real v and '
+                  'complex w in all seven gridding modes, in memory and '
+                  'file-based; Richardson finite differences of '
+                  'data.synthetic for J v; jtvec(residual*weights) vs fresh '
+                  'gradient',
+     'text': 'Re<w,Jv> = <J^T w,v> held to 1e-6 relative on every observed '
+             'case in the modes same/single/frequency/source/both/input/dict; '
+             'J v equalled the extrapolated data derivative (gridding same) '
+             'and jtvec of the weighted residual reproduced the gradient.',
+     'note': 'Solver tolerance 1e-10; only converged cases judged; automatic '
+             'grids are small (8..32 cells) with fully specified '
+             'gridding_opts.'},
     {'id': 'C09', 'ref': 'DESIGN.md section 3 C09',
      'technique': 'runtime monitoring at the boundaries of get_receiver / '
                   'get_source_field / get_magnetic_field / '
